@@ -12,8 +12,11 @@
       get_component, get_components, delete_entity, process, the
       dispatch_enabled setter as far as the relay of on_add is concerned, and
       the processor part of C07Model) are modelled on the entity table.  A
-      trace is run on twin worlds: world A is driven through controllers,
-      world B through the corresponding World call for the owner entity.
+      trace is run on twin sides A and B, each with two independent Worlds
+      (1 and 2) sharing the component and controller instances of the side:
+      side A is driven through controllers, side B through the corresponding
+      World call, on the world and for the entity of the controller's latest
+      delivered on_add.
 
    B. Prototype.__iter__ : init_methods.get(T, getattr(self, prefix + name, default))(T)
 
@@ -81,8 +84,9 @@ Record snap := {
   sn_exists   : list bool;            (* entity_exists(e) for every e of the pool *)
   sn_procs    : list Z;               (* world.processors *)
   sn_prios    : list Z;               (* the priority attribute of each of them, same order *)
-  sn_cent     : list (Z * option Z);  (* for every controller: its .entity *)
-  sn_world    : bool;                 (* every controller with an entity has .world is this world *)
+  sn_cent     : list (Z * option (Z * Z));
+      (* for every controller: its .entity and which of the two worlds its .world is *)
+  sn_world    : bool;                 (* no controller's .world is a foreign object *)
 }.
 
 (* ---- model state ------------------------------------------------------- *)
@@ -92,15 +96,27 @@ Record wstate := {
   pst     : C07Model.state;           (* _sorted_processors, _processors *)
   w_en    : bool;                     (* _dispatch_enabled *)
   w_queue : list (Z * Z);             (* relayed on_add: (controller, entity) *)
-  cent    : list (Z * Z);             (* controller -> its .entity, written by on_add *)
+  cent    : list (Z * (Z * Z));
+      (* controller -> its (.entity, .world), written by on_add; the controllers
+         belong to no world: both worlds of a side carry the same table *)
+  wid     : Z;                        (* which world this is: 1 or 2 *)
 }.
-Definition winit : wstate :=
-  {| ents := []; dead := []; pst := C07Model.init; w_en := true; w_queue := []; cent := [] |}.
+Definition winit (j : Z) : wstate :=
+  {| ents := []; dead := []; pst := C07Model.init; w_en := true; w_queue := []; cent := [];
+     wid := j |}.
 
 Definition set_core (st : wstate) (en : list (Z * list (Z * Z))) (d : list Z) : wstate :=
-  {| ents := en; dead := d; pst := pst st; w_en := w_en st; w_queue := w_queue st; cent := cent st |}.
+  {| ents := en; dead := d; pst := pst st; w_en := w_en st; w_queue := w_queue st;
+     cent := cent st; wid := wid st |}.
 Definition set_pst (st : wstate) (p : C07Model.state) : wstate :=
-  {| ents := ents st; dead := dead st; pst := p; w_en := w_en st; w_queue := w_queue st; cent := cent st |}.
+  {| ents := ents st; dead := dead st; pst := p; w_en := w_en st; w_queue := w_queue st;
+     cent := cent st; wid := wid st |}.
+Definition set_ev (st : wstate) (en : bool) (q : list (Z * Z)) (ce : list (Z * (Z * Z))) : wstate :=
+  {| ents := ents st; dead := dead st; pst := pst st; w_en := en; w_queue := q;
+     cent := ce; wid := wid st |}.
+
+Record duo := { d1 : wstate; d2 : wstate }.
+Definition dinit : duo := {| d1 := winit 1; d2 := winit 2 |}.
 
 Definition memz (x : Z) (l : list Z) : bool := existsb (Z.eqb x) l.
 Definition remz (x : Z) (l : list Z) : list Z := filter (fun y => negb (x =? y)) l.
@@ -123,12 +139,8 @@ Variable P : insts.         (* the processor instances of the case *)
 (* Controller.on_add(entity, world): direct when enabled, relayed otherwise *)
 Definition notify_add_c (st : wstate) (c e : Z) : wstate :=
   if k_ctrl (cinst_of K c) then
-    if w_en st then
-      {| ents := ents st; dead := dead st; pst := pst st; w_en := w_en st;
-         w_queue := w_queue st; cent := aset c e (cent st) |}
-    else
-      {| ents := ents st; dead := dead st; pst := pst st; w_en := w_en st;
-         w_queue := w_queue st ++ [(c, e)]; cent := cent st |}
+    if w_en st then set_ev st (w_en st) (w_queue st) (aset c (e, wid st) (cent st))
+    else set_ev st (w_en st) (w_queue st ++ [(c, e)]) (cent st)
   else st.
 
 (* the answer of a walk over the subclasses of T in the row of an entity:
@@ -225,12 +237,10 @@ Definition w_step (st : wstate) (w : wop) (pick : option Z)
       end
   | WEnable b =>
       if b then
-        Some ({| ents := ents st; dead := dead st; pst := pst st; w_en := true; w_queue := [];
-                 cent := fold_left (fun ce ke => aset (fst ke) (snd ke) ce) (w_queue st) (cent st) |},
+        Some (set_ev st true []
+                (fold_left (fun ce ke => aset (fst ke) (snd ke, wid st) ce) (w_queue st) (cent st)),
               RNone, [])
-      else
-        Some ({| ents := ents st; dead := dead st; pst := pst st; w_en := false;
-                 w_queue := w_queue st; cent := cent st |}, RNone, [])
+      else Some (set_ev st false (w_queue st) (cent st), RNone, [])
   | WAddProc p cur =>
       let '(ps, _) := C07Model.add_processor P (pst st) p None cur in
       Some (set_pst st ps, RNone, [])
@@ -272,47 +282,55 @@ Definition set_guard (s : sh) : bool :=
   | _ => true
   end.
 
-(* a shorthand through controller k, as the code writes it:
-   controller.world.<call>(controller.entity, ...) *)
-Definition via_controller (st : wstate) (k : Z) (s : sh) (pick : option Z)
-  : option (wstate * res * list ev) :=
-  match alookup k (cent st) with
-  | None => Some (st, RExn 3, [])            (* controller.world is None: AttributeError *)
-  | Some e =>
-      if negb (set_guard s) then Some (st, RExn 2, []) else
-      let '(w, discard) := lower s e in
-      match w_step st w pick with
-      | Some (st', r, log) => Some (st', hide discard r, log)
-      | None => None
-      end
-  end.
+(* desper.controller(entity, world) *)
+Definition mk_controller (st : wstate) (k e : Z) : wstate :=
+  set_ev st (w_en st) (w_queue st) (aset k (e, wid st) (cent st)).
 
-(* the corresponding World call for entity e, issued directly *)
-Definition direct_call (st : wstate) (e : Z) (s : sh) (pick : option Z)
-  : option (wstate * res * list ev) :=
-  let '(w, discard) := lower s e in
-  match w_step st w pick with
-  | Some (st', r, log) => Some (st', hide discard r, log)
+(* ---- a side: two worlds and the controllers they share ------------------ *)
+Definition norm (j : Z) : Z := if j =? 2 then 2 else 1.
+Definition pickw (d : duo) (j : Z) : wstate := if j =? 2 then d2 d else d1 d.
+Definition set_cent (st : wstate) (ce : list (Z * (Z * Z))) : wstate :=
+  set_ev st (w_en st) (w_queue st) ce.
+(* world j moves to st'; the controllers' fields it wrote are the controllers' *)
+Definition putw (d : duo) (j : Z) (st' : wstate) : duo :=
+  if j =? 2 then {| d1 := set_cent (d1 d) (cent st'); d2 := st' |}
+  else {| d1 := st'; d2 := set_cent (d2 d) (cent st') |}.
+
+Definition on_world (d : duo) (j : Z) (w : wop) (discard : bool) (pick : option Z)
+  : option (duo * res * list ev) :=
+  match w_step (pickw d j) w pick with
+  | Some (st', r, log) => Some (putw d j st', hide discard r, log)
   | None => None
   end.
 
-(* desper.controller(entity, world) *)
-Definition mk_controller (st : wstate) (k e : Z) : wstate :=
-  {| ents := ents st; dead := dead st; pst := pst st; w_en := w_en st;
-     w_queue := w_queue st; cent := aset k e (cent st) |}.
+(* a shorthand through controller k, as the code writes it:
+   controller.world.<call>(controller.entity, ...) *)
+Definition via_controller (d : duo) (k : Z) (s : sh) (pick : option Z)
+  : option (duo * res * list ev) :=
+  match alookup k (cent (d1 d)) with
+  | None => Some (d, RExn 3, [])             (* controller.world is None: AttributeError *)
+  | Some (e, j) =>
+      if negb (set_guard s) then Some (d, RExn 2, []) else
+      on_world d j (fst (lower s e)) (snd (lower s e)) pick
+  end.
+
+(* the corresponding World call on world j for entity e, issued directly *)
+Definition direct_call (d : duo) (j e : Z) (s : sh) (pick : option Z)
+  : option (duo * res * list ev) :=
+  on_world d j (fst (lower s e)) (snd (lower s e)) pick.
 
 End WorldModel.
 
 (* ---- traces ------------------------------------------------------------ *)
 Inductive cop :=
-| ODirect (w : wop)             (* the same World call on both worlds *)
-| OShort (k e : Z) (s : sh)     (* s through controller k on world A;
-                                   the World call for entity e on world B *)
-| OMkCtrl (k e : Z).            (* k = desper.controller(e, world), on both *)
+| ODirect (j : Z) (w : wop)       (* the same World call on world j of both sides *)
+| OShort (k e j : Z) (s : sh)     (* s through controller k on side A;
+                                     the World call on world j for entity e on side B *)
+| OMkCtrl (k e j : Z).            (* k = desper.controller(e, world j), on both sides *)
 
 Record cobs := {
-  a_res : res; a_log : list ev; a_snap : snap;     (* world A *)
-  b_res : res; b_log : list ev; b_snap : snap;     (* world B *)
+  a_res : res; a_log : list ev; a_snap : snap;     (* side A; the snapshot is of world j *)
+  b_res : res; b_log : list ev; b_snap : snap;     (* side B *)
   o_pick : option Z;       (* the component / processor the walk picked (if the call has one) *)
 }.
 Definition ctrace := list (cop * cobs).
@@ -322,6 +340,9 @@ Record ctrl_case := {
   cc_pool : list Z;         (* entity ids whose rows are dumped in every snapshot *)
   cc_trace : ctrace;
 }.
+
+Definition world_of (o : cop) : Z :=
+  match o with ODirect j _ => j | OShort _ _ j _ => j | OMkCtrl _ _ j => j end.
 
 (* the snapshot the model predicts *)
 Definition controllers (K : comps) : list Z :=
@@ -345,7 +366,14 @@ Definition res_eqb (a b : res) : bool :=
   | RExn x, RExn y => x =? y
   | _, _ => false
   end.
-Definition cent_eqb (a b : Z * option Z) : bool := (fst a =? fst b) && opt_eqb (snd a) (snd b).
+Definition opt2_eqb (a b : option (Z * Z)) : bool :=
+  match a, b with
+  | Some (x1, x2), Some (y1, y2) => (x1 =? y1) && (x2 =? y2)
+  | None, None => true
+  | _, _ => false
+  end.
+Definition cent_eqb (a b : Z * option (Z * Z)) : bool :=
+  (fst a =? fst b) && opt2_eqb (snd a) (snd b).
 Definition snap_eqb (a b : snap) : bool :=
   zs_eqb (sn_entities a) (sn_entities b)
   && list_eqb zs_eqb (sn_comps a) (sn_comps b)
@@ -355,136 +383,160 @@ Definition snap_eqb (a b : snap) : bool :=
   && list_eqb cent_eqb (sn_cent a) (sn_cent b)
   && Bool.eqb (sn_world a) (sn_world b).
 
-Definition side_ok (K : comps) (pool : list Z) (r : option (wstate * res * list ev))
-           (ores : res) (olog : list ev) (osnap : snap) : option wstate :=
+Definition side_ok (K : comps) (pool : list Z) (j : Z) (r : option (duo * res * list ev))
+           (ores : res) (olog : list ev) (osnap : snap) : option duo :=
   match r with
-  | Some (st', mres, mlog) =>
-      if res_eqb ores mres && evs_eqb olog mlog && snap_eqb osnap (snapshot K pool st')
-      then Some st' else None
+  | Some (d', mres, mlog) =>
+      if res_eqb ores mres && evs_eqb olog mlog && snap_eqb osnap (snapshot K pool (pickw d' j))
+      then Some d' else None
   | None => None
   end.
 
-(* one step of the acceptor on the pair (world A, world B) *)
-Definition cstep (c : ctrl_case) (stA stB : wstate) (o : cop) (ob : cobs)
-  : option (wstate * wstate) :=
+Definition side_a (H : hier) (K : comps) (P : insts) (d : duo) (o : cop) (pick : option Z)
+  : option (duo * res * list ev) :=
+  match o with
+  | ODirect j w => on_world H K P d j w false pick
+  | OShort k e j s => via_controller H K P d k s pick
+  | OMkCtrl k e j => Some (putw d j (mk_controller (pickw d j) k e), RNone, [])
+  end.
+Definition side_b (H : hier) (K : comps) (P : insts) (d : duo) (o : cop) (pick : option Z)
+  : option (duo * res * list ev) :=
+  match o with
+  | ODirect j w => on_world H K P d j w false pick
+  | OShort k e j s => direct_call H K P d j e s pick
+  | OMkCtrl k e j => Some (putw d j (mk_controller (pickw d j) k e), RNone, [])
+  end.
+
+(* one step of the acceptor on the pair (side A, side B) *)
+Definition cstep (c : ctrl_case) (dA dB : duo) (o : cop) (ob : cobs) : option (duo * duo) :=
   let H := cc_hier c in let K := cc_comps c in let P := cc_procs c in
   let pool := cc_pool c in
-  let '(rA, rB) :=
-    match o with
-    | ODirect w => (w_step H K P stA w (o_pick ob), w_step H K P stB w (o_pick ob))
-    | OShort k e s => (via_controller H K P stA k s (o_pick ob),
-                       direct_call H K P stB e s (o_pick ob))
-    | OMkCtrl k e => (Some (mk_controller stA k e, RNone, []),
-                      Some (mk_controller stB k e, RNone, []))
-    end in
-  match side_ok K pool rA (a_res ob) (a_log ob) (a_snap ob),
-        side_ok K pool rB (b_res ob) (b_log ob) (b_snap ob) with
-  | Some stA', Some stB' => Some (stA', stB')
+  match side_ok K pool (world_of o) (side_a H K P dA o (o_pick ob))
+                (a_res ob) (a_log ob) (a_snap ob),
+        side_ok K pool (world_of o) (side_b H K P dB o (o_pick ob))
+                (b_res ob) (b_log ob) (b_snap ob) with
+  | Some dA', Some dB' => Some (dA', dB')
   | _, _ => None
   end.
 
-Fixpoint crun (c : ctrl_case) (stA stB : wstate) (tr : ctrace) : option (wstate * wstate) :=
+Fixpoint crun (c : ctrl_case) (dA dB : duo) (tr : ctrace) : option (duo * duo) :=
   match tr with
-  | [] => Some (stA, stB)
+  | [] => Some (dA, dB)
   | (o, ob) :: tr =>
-      match cstep c stA stB o ob with
+      match cstep c dA dB o ob with
       | Some (a, b) => crun c a b tr
       | None => None
       end
   end.
 
 Definition ctrl_accepts (c : ctrl_case) : bool :=
-  match crun c winit winit (cc_trace c) with Some _ => true | None => false end.
+  match crun c dinit dinit (cc_trace c) with Some _ => true | None => false end.
 
 (* ---- the property (part A), over observations only ---------------------- *)
-(* what the history says about each controller: the entity it was attached
-   to last (or built for), and whether the on_add of that attachment has
-   been delivered *)
-Record ospec := {
-  own      : list (Z * Z);   (* controller -> entity of its latest attachment *)
-  dlv      : list Z;         (* controllers whose on_add has been delivered *)
-  sp_en    : bool;           (* dispatching enabled *)
-  attached : list Z;         (* components that have been attached / built so far *)
+(* what the history says about the controllers: for each, the entity and the
+   world of its latest delivered on_add (or what desper.controller() gave
+   it); per world, whether dispatching is enabled and the on_add
+   notifications still waiting, in order *)
+Record track := {
+  t_own : list (Z * (Z * Z));     (* controller -> (entity, world) *)
+  t_en1 : bool; t_q1 : list (Z * Z);
+  t_en2 : bool; t_q2 : list (Z * Z);
 }.
-Definition oinit : ospec := {| own := []; dlv := []; sp_en := true; attached := [] |}.
+Definition tinit : track := {| t_own := []; t_en1 := true; t_q1 := []; t_en2 := true; t_q2 := [] |}.
 
-Definition attach (K : comps) (o : ospec) (e c : Z) : ospec :=
+(* the part of the history summary one world sees *)
+Record evp := { ep_en : bool; ep_q : list (Z * Z); ep_cent : list (Z * (Z * Z)); ep_wid : Z }.
+Definition t_evp (t : track) (j : Z) : evp :=
+  if j =? 2 then {| ep_en := t_en2 t; ep_q := t_q2 t; ep_cent := t_own t; ep_wid := 2 |}
+  else {| ep_en := t_en1 t; ep_q := t_q1 t; ep_cent := t_own t; ep_wid := 1 |}.
+Definition t_put (t : track) (j : Z) (p : evp) : track :=
+  if j =? 2 then {| t_own := ep_cent p; t_en1 := t_en1 t; t_q1 := t_q1 t;
+                    t_en2 := ep_en p; t_q2 := ep_q p |}
+  else {| t_own := ep_cent p; t_en1 := ep_en p; t_q1 := ep_q p;
+          t_en2 := t_en2 t; t_q2 := t_q2 t |}.
+
+(* component c is attached to entity e of that world: a controller gets
+   on_add(e, world) at once when the world dispatches, else when it is enabled again *)
+Definition attach (K : comps) (p : evp) (c e : Z) : evp :=
   if k_ctrl (cinst_of K c) then
-    {| own := aset c e (own o);
-       dlv := if sp_en o then addz c (dlv o) else remz c (dlv o);
-       sp_en := sp_en o; attached := c :: attached o |}
-  else {| own := own o; dlv := dlv o; sp_en := sp_en o; attached := c :: attached o |}.
-
-(* the components an operation attaches, and to which entity *)
-Definition attaches (o : cop) : list (Z * Z) :=
-  match o with
-  | ODirect (WAdd e c) => [(e, c)]
-  | ODirect (WCreate e cs) => map (fun c => (e, c)) cs
-  | OShort _ e (SAdd c) => [(e, c)]
-  | OShort _ e (SRefSet _ c) => [(e, c)]
-  | _ => []
+    if ep_en p then {| ep_en := ep_en p; ep_q := ep_q p;
+                       ep_cent := aset c (e, ep_wid p) (ep_cent p); ep_wid := ep_wid p |}
+    else {| ep_en := ep_en p; ep_q := ep_q p ++ [(c, e)]; ep_cent := ep_cent p;
+            ep_wid := ep_wid p |}
+  else p.
+Definition world_ev (K : comps) (p : evp) (w : wop) : evp :=
+  match w with
+  | WCreate e cs => fold_left (fun s c => attach K s c e) cs p
+  | WAdd e c => attach K p c e
+  | WEnable true =>
+      {| ep_en := true; ep_q := [];
+         ep_cent := fold_left (fun ce ke => aset (fst ke) (snd ke, ep_wid p) ce) (ep_q p) (ep_cent p);
+         ep_wid := ep_wid p |}
+  | WEnable false => {| ep_en := false; ep_q := ep_q p; ep_cent := ep_cent p; ep_wid := ep_wid p |}
+  | _ => p
   end.
-
-Definition ospec_step (K : comps) (o : ospec) (op : cop) : ospec :=
-  let o1 := fold_left (fun s ec => attach K s (fst ec) (snd ec)) (attaches op) o in
+(* the World call a shorthand stands for (add_component, a reference assignment, ...) *)
+Definition lowered (s : sh) (e : Z) : wop :=
+  match s with
+  | SAdd c => WAdd e c
+  | SRefSet _ c => WAdd e c
+  | _ => WHas e 0          (* any call that attaches nothing *)
+  end.
+Definition track_step (K : comps) (t : track) (op : cop) : track :=
   match op with
-  | ODirect (WEnable true) =>
-      {| own := own o1; dlv := akeys (own o1); sp_en := true; attached := attached o1 |}
-  | ODirect (WEnable false) =>
-      {| own := own o1; dlv := dlv o1; sp_en := false; attached := attached o1 |}
-  | OMkCtrl k e =>
-      {| own := aset k e (own o1); dlv := addz k (dlv o1); sp_en := sp_en o1;
-         attached := k :: attached o1 |}
-  | _ => o1
+  | ODirect j w => t_put t j (world_ev K (t_evp t j) w)
+  | OShort k e j s => t_put t j (world_ev K (t_evp t j) (lowered s e))
+  | OMkCtrl k e j =>
+      {| t_own := aset k (e, norm j) (t_own t); t_en1 := t_en1 t; t_q1 := t_q1 t;
+         t_en2 := t_en2 t; t_q2 := t_q2 t |}
   end.
 
-(* every controller whose on_add has been delivered knows its entity (and its world) *)
-Definition knows (o : ospec) (s : snap) : bool :=
+(* every controller has, as entity and world, those of its latest delivered on_add *)
+Definition knows (t : track) (s : snap) : bool :=
   sn_world s &&
-  forallb (fun ke => if memz (fst ke) (dlv o)
-                     then opt_eqb (snd ke) (alookup (fst ke) (own o)) else true) (sn_cent s).
+  forallb (fun ke => opt2_eqb (snd ke) (alookup (fst ke) (t_own t))) (sn_cent s).
 
 (* result, callbacks and successor state through the controller = those of
-   the World call for that entity *)
+   the World call on that world for that entity *)
 Definition same_effect (ob : cobs) : bool :=
   res_eqb (a_res ob) (b_res ob) && evs_eqb (a_log ob) (b_log ob)
   && snap_eqb (a_snap ob) (b_snap ob).
 
-Fixpoint ctrl_holds_from (K : comps) (o : ospec) (tr : ctrace) : bool :=
+Fixpoint ctrl_holds_from (K : comps) (t : track) (tr : ctrace) : bool :=
   match tr with
   | [] => true
   | (op, ob) :: tr =>
-      let o' := ospec_step K o op in
-      same_effect ob && knows o' (a_snap ob) && ctrl_holds_from K o' tr
+      let t' := track_step K t op in
+      same_effect ob && knows t' (a_snap ob) && ctrl_holds_from K t' tr
   end.
-Definition ctrl_holds_b (c : ctrl_case) : bool := ctrl_holds_from (cc_comps c) oinit (cc_trace c).
+Definition ctrl_holds_b (c : ctrl_case) : bool := ctrl_holds_from (cc_comps c) tinit (cc_trace c).
 
-(* input domain (part A): a shorthand is used through a controller whose
-   on_add has been delivered, [e] being the entity of its (latest)
-   attachment; values assigned through a reference are instances of the
-   reference's type; a controller built by desper.controller() is a new
-   object; processors are not event handlers here *)
+(* input domain (part A): a shorthand is used through a controller none of
+   whose on_add notifications is still waiting, [e] and world [j] being those
+   of its latest delivered on_add; values assigned through a reference are
+   instances of the reference's type; processors are not event handlers here *)
 Definition sh_wf (H : hier) (K : comps) (P : insts) (s : sh) : bool :=
   match s with
   | SRefSet t c => issub H (k_ty (cinst_of K c)) t
   | SPRefSet t p _ => issub H (i_ty (inst_of P p)) t
   | _ => true
   end.
-Definition cop_wf (H : hier) (K : comps) (P : insts) (o : ospec) (op : cop) : bool :=
-  forallb (fun ec => amem (snd ec) K) (attaches op)
-  && match op with
-     | OShort k e s => opt_eqb (alookup k (own o)) (Some e) && memz k (dlv o) && sh_wf H K P s
-     | OMkCtrl k _ => negb (memz k (attached o)) && k_ctrl (cinst_of K k)
-     | _ => true
-     end.
-Fixpoint ctrl_wf_from (H : hier) (K : comps) (P : insts) (o : ospec) (tr : ctrace) : bool :=
+Definition cop_wf (H : hier) (K : comps) (P : insts) (t : track) (op : cop) : bool :=
+  match op with
+  | OShort k e j s =>
+      opt2_eqb (alookup k (t_own t)) (Some (e, norm j))
+      && negb (amem k (t_q1 t)) && negb (amem k (t_q2 t)) && sh_wf H K P s
+  | OMkCtrl k _ _ => k_ctrl (cinst_of K k)
+  | ODirect _ _ => true
+  end.
+Fixpoint ctrl_wf_from (H : hier) (K : comps) (P : insts) (t : track) (tr : ctrace) : bool :=
   match tr with
   | [] => true
-  | (op, _) :: tr => cop_wf H K P o op && ctrl_wf_from H K P (ospec_step K o op) tr
+  | (op, _) :: tr => cop_wf H K P t op && ctrl_wf_from H K P (track_step K t op) tr
   end.
 Definition ctrl_wf_b (c : ctrl_case) : bool :=
   forallb (fun pi => negb (i_ev (snd pi))) (cc_procs c)
-  && ctrl_wf_from (cc_hier c) (cc_comps c) (cc_procs c) oinit (cc_trace c).
+  && ctrl_wf_from (cc_hier c) (cc_comps c) (cc_procs c) tinit (cc_trace c).
 
 (* ====================================================================== *)
 (* Part B: Prototype.__iter__                                             *)
